@@ -563,6 +563,8 @@ func genCliFlow(p *prng, thorough bool, w *bufio.Writer) {
 
 // ---------------------------------------------------------------- C11: GOAWAY
 
+var gaDebug = []string{"bye", "", "too_many_pings", "x", "server shutting down for maintenance; retry elsewhere", "bye"}
+
 func genCliGoAway(p *prng, thorough bool, w *bufio.Writer) {
 	n := 150
 	if thorough {
@@ -619,7 +621,7 @@ func genCliGoAway(p *prng, thorough bool, w *bufio.Writer) {
 			s.note("class %s F37-above", s.id)
 		}
 		s.note("goaway %s last=%d", s.id, last)
-		s.frame(frGoAway(last, code, []byte("bye")))
+		s.frame(frGoAway(last, code, []byte(gaDebug[i%len(gaDebug)])))
 		s.goAway = true
 		if last == 0 {
 			s.dead = true
@@ -653,6 +655,48 @@ func genCliGoAway(p *prng, thorough bool, w *bufio.Writer) {
 		s.finale("")
 		how := q.pick([]string{"cut", "close"})
 		s.finale(how)
+		// what the errors handed out say is looked at once more, after everything else has happened
+		s.op("errs")
+	}
+	// what a GOAWAY(last-stream-id 0) said is what the connection's LastErr and every request it ends go on saying:
+	// codes and debug data of every size, requests in flight, queued behind them and arriving afterwards, results
+	// taken before and after Close and after later frames; the next script's connections recycle frames meanwhile
+	ng := 30
+	if thorough {
+		ng = 300
+	}
+	for i := 0; i < ng; i++ {
+		q := p.fork()
+		s := newScn(w, q, 3, uint32(1+q.intn(3)))
+		k := q.intn(4)
+		for j := 0; j < k; j++ {
+			s.req(reqSpec{path: fmt.Sprintf("/g%d", j), body: []string{"none", "buf:1:50", "buf:2:70000", "str:3:-1:10.20:eof"}[q.intn(4)]})
+		}
+		if q.chance(1, 3) {
+			// a GOAWAY that lets the accepted streams finish comes first; the one that ends the connection follows
+			s.frame(frGoAway(s.nextID, 0, []byte("draining")))
+			s.goAway = true
+		}
+		code := []uint32{1, 2, 7, 11, 13, 0xffffffff, 0x80000001, 0}[(i+q.intn(2))%8]
+		debug := q.bytes([]int{0, 1, 3, 14, 300}[(i/2)%5])
+		if q.chance(1, 2) && len(debug) > 0 {
+			debug = []byte(gaDebug[q.intn(len(gaDebug))])
+		}
+		s.note("goaway %s last=0", s.id)
+		if q.chance(1, 4) {
+			// with other frames behind it in the same read
+			s.frame(frGoAway(0, code, debug), frPing(false, q.bytes(8)), frGoAway(0, 9, []byte("second")))
+		} else {
+			s.frame(frGoAway(0, code, debug))
+		}
+		s.goAway, s.dead = true, true
+		half := len(s.tags) / 2
+		s.read(s.tags[:half]...)
+		s.req(reqSpec{path: "/after"})
+		s.op(q.pick([]string{"close", "close", "cut"}))
+		s.req(reqSpec{path: "/after-close"})
+		s.read(s.tags...)
+		s.op("errs")
 	}
 	// write failure around a GOAWAY: the transport stops taking writes before or after the server
 	// says which streams it accepted; whatever each request ends with, only one that was never
